@@ -348,6 +348,9 @@ def main(run):
         c['seed'] = run.seed % 4
     run.check_determinism(run_case, cs[len(cs) // 2])
     run.explore('core', cs, run_case, budget_s=300)
+    # the summary table of dassh.out through which a user reads this property (vf/props/reports.py)
+    from . import reports
+    run.explore('report-interasm', reports.cases_interasm(run.tier), reports.run_interasm, budget_s=300)
     for k in ('shared_cells', 'mixed_mesh_layouts', 'layouts_with_vacancy', 'conservative_class'):
         if not run.extra.get(k):
             run.violations.append(dict(violation('vacuous-alphabet', {'what': k}, 'alphabet never produced ' + k),
@@ -355,6 +358,9 @@ def main(run):
 
 
 def replay(body):
+    if str((body.get('scenario') or {}).get('probe', '')).startswith('report-'):
+        from . import reports
+        return reports.replay(body)
     from ..run import guarded
     c = {k: v for k, v in body['scenario'].items() if k not in ('asm', 'region')}
     r = guarded(run_case, c, 900)
